@@ -783,9 +783,48 @@ fn gen_malformed(t: &mut Tape) -> Lit {
     Lit { text, expect: Expect::Reject("no literal of IEC 61131-3 is spelled like this".into()), family: "malformed", class: class.to_string(), embed: Embed::Init }
 }
 
+/// units that IEC 61131-3:2003 does not have.  `us` and `ns` are units of the 2013 edition: a parser
+/// may reject them (the pinned tree does) or read them as micro- / nanoseconds exactly; every other
+/// unit-like suffix can only be rejected.  Integer or fractional count, sign, prefix and letter case
+/// vary; after a known unit (`T#1s5us`) the same holds.
+fn gen_foreign_unit(t: &mut Tape) -> Lit {
+    let tp = *t.pick(&["T#", "t#", "TIME#", "time#", "T#-", "TIME#-"]);
+    let neg = tp.ends_with('-');
+    let count: u64 = match t.below(5) {
+        0 => 0,
+        1 => 1,
+        2 => 5,
+        3 => t.below(1000) as u64,
+        _ => t.u16() as u64,
+    };
+    let later = t.ratio(2, 3);
+    if later {
+        let (unit, f) = *t.pick(&[("us", 1_000i128), ("ns", 1i128), ("US", 1_000), ("NS", 1), ("Us", 1_000), ("nS", 1)]);
+        // a fraction that is a whole number of nanoseconds (us only)
+        let (num, frac_ns) = if f == 1_000 && t.ratio(1, 3) {
+            let fd = 1 + t.below(3);
+            let fr = t.below(10usize.pow(fd as u32));
+            (format!("{}.{:0w$}", count, fr, w = fd), fr as i128 * 1000 / 10i128.pow(fd as u32))
+        } else {
+            (count.to_string(), 0)
+        };
+        let lead_s = t.ratio(1, 4);
+        let lead = if lead_s { 1 + t.below(59) as i128 } else { 0 };
+        let text = if lead_s { format!("{}{}s{}{}", tp, lead, num, unit) } else { format!("{}{}{}", tp, num, unit) };
+        let total = lead * 1_000_000_000 + count as i128 * f + frac_ns;
+        let total = if neg { -total } else { total };
+        return Lit { text, expect: Expect::Either(Box::new(Expect::Duration(total))), family: "duration", class: format!("later-edition-unit.{}", unit.to_ascii_lowercase()), embed: Embed::Init };
+    }
+    let unit = *t.pick(&["y", "w", "min", "sec", "hr", "msec", "µs", "ps", "mss", "sm", "dd", "mh"]);
+    Lit { text: format!("{}{}{}", tp, count, unit), expect: Expect::Reject("no such duration unit".into()), family: "malformed", class: "duration.foreign-unit".into(), embed: Embed::Init }
+}
+
 pub fn gen_literal(t: &mut Tape, g: &Gates) -> Lit {
     if t.ratio(1, 8) {
         return gen_integer_position(t);
+    }
+    if t.ratio(1, 25) && g.want("MALFORMED_LITERAL") {
+        return gen_foreign_unit(t);
     }
     if t.ratio(1, 12) && g.want("MALFORMED_LITERAL") {
         return gen_malformed(t);
